@@ -838,6 +838,7 @@ fn oracle(tys: &[Ty], real: &Real) -> (String, String) {
 //   global kinds: sb rwsb sbc sbtd sbreg (structured buffers, spelled differently)
 //                 sbarr rwsbarr sbarr2 sbarru sbbl (arrays of structured buffers; sbbl = [[rssl::bindless]])
 //                 sbtdarr (`typedef StructuredBuffer<S> A[2]; A g;`) sbarrtd (`… A g[3];`: an array of a typedef'd array)
+//                 sbarrtd2 (`… typedef const A B[2]; B g[3];`: two modifiers between three array layers)
 //                 sbmem (a structured buffer that is a member of a global struct) sbparam (a function parameter)
 //                 cb (ConstantBuffer<T>) cbuf (cbuffer member) gv gs st (plain / groupshared / static variable)
 //   load/store  : bload bload2 rwbload rwbload2 rwbstore rwbstoret baload rwbaload rwbastore rwbastoret
@@ -853,7 +854,7 @@ fn oracle(tys: &[Ty], real: &Real) -> (String, String) {
 //   L = G<site index> (located at that global) | T<type index> (located at that struct's definition) | ?
 // ------------------------------------------------------------------------------------------------
 pub const GLOBAL_KINDS: &[&str] = &[
-    "sb", "rwsb", "sbc", "sbtd", "sbreg", "sbarr", "rwsbarr", "sbarr2", "sbarru", "sbbl", "sbtdarr", "sbarrtd", "sbmem",
+    "sb", "rwsb", "sbc", "sbtd", "sbreg", "sbarr", "rwsbarr", "sbarr2", "sbarru", "sbbl", "sbtdarr", "sbarrtd", "sbarrtd2", "sbmem",
     "sbparam", "cb", "cbuf", "gv", "gs", "st",
 ];
 pub const FN_KINDS: &[&str] = &[
@@ -990,6 +991,9 @@ fn prog_source(p: &Prog) -> (String, ProgLines) {
             "sbbl" => format!("[[rssl::bindless]] [[rssl::bind_group(1)]] StructuredBuffer<{}> g{}[1024];", a, i),
             "sbtdarr" => format!("typedef StructuredBuffer<{}> SBA{}[2]; SBA{} g{};", a, i, i, i),
             "sbarrtd" => format!("typedef StructuredBuffer<{}> SBA{}[2]; SBA{} g{}[3];", a, i, i, i),
+            "sbarrtd2" => format!(
+                "typedef StructuredBuffer<{}> SBA{}[2]; typedef const SBA{} SBB{}[2]; SBB{} g{}[3];", a, i, i, i, i, i
+            ),
             "sbmem" => format!("struct H{} {{ StructuredBuffer<{}> p; }}; H{} g{};", i, a, i, i),
             "sbparam" => format!("void fparam{}(StructuredBuffer<{}> p) {{}}", i, a),
             "cb" => format!("ConstantBuffer<{}> g{};", a, i),
@@ -1099,7 +1103,7 @@ fn property_site(site: &Site) -> Option<Option<&'static str>> {
         match site.kind.as_str() {
             "sb" | "rwsb" | "sbc" | "sbtd" | "sbreg" => Some(None),
             "sbarr" | "rwsbarr" | "sbarr2" | "sbarru" | "sbbl" | "sbtdarr" => Some(Some("site-sbarr")),
-            "sbarrtd" => Some(Some("site-sbarr-typedef")),
+            "sbarrtd" | "sbarrtd2" => Some(Some("site-sbarr-typedef")),
             "sbmem" => Some(Some("site-sbmem")),
             // a parameter type is not a buffer: the buffer is whatever global is passed. constant buffers, cbuffer
             // members and plain variables are not named by the property
